@@ -9,7 +9,7 @@ V="$(cd "$(dirname "$0")/.." && pwd)"
 case "$ID" in
   C01) TARGET=range_ast_c01; RUNS=${VERIF_FUZZ_RUNS:-400000} ;;
   C05|C17) TARGET=version_text_c05_c17; RUNS=${VERIF_FUZZ_RUNS:-800000} ;;
-  C06) TARGET=ops_c06; RUNS=${VERIF_FUZZ_RUNS:-100000} ;;
+  C06) TARGET=ops_c06; RUNS=${VERIF_FUZZ_RUNS:-60000} ;;
   *) exit 0 ;;
 esac
 SEED=${VERIF_SEED:-0}
